@@ -1,6 +1,8 @@
 import SMD.Properties.C04
 import SMD.Properties.C07
 import SMD.Properties.C08
+import SMD.Properties.C09
+import SMD.Properties.C10
 import SMD.Properties.C15
 import SMD.Properties.C17
 import SMD.Properties.C20
